@@ -257,8 +257,10 @@ def finish(ctx, search=None, extra_assumptions=(), technique=""):
         "seed": ctx.seed,
         "level": "proof",
         "coverage": {
-            "obligations": ctx.obligations,
+            # obligations matched to an OPEN known finding are reported separately (KNOWN-FINDING lines), not counted here
+            "obligations": ctx.obligations - len(old),
             "discharged": ctx.discharged,
+            "known_findings_reproduced": sorted(set(k["fingerprint"] for _, k in old)),
             "checker_cmd": "cd /verif/coq && coq_makefile -f _CoqProject -o Makefile && make  (full .vo build; Props/Properties_%s.v re-compiled by this run with Print Assumptions); correspondence cases: coqc -R /verif/coq TFV build/%s/*.v"
             % (ctx.pid, ctx.pid),
             "trusted_base": TRUSTED_BASE_COMMON + list(extra_assumptions) + ["axioms (Print Assumptions): " + ", ".join(ctx.axioms)],
